@@ -38,12 +38,30 @@ import (
 // method. Obligation: every path from the entry to a return passes that call.
 func init() {
 	register(&Rule{
-		Name:  "FLAG-RESET",
-		IR:    "ast",
-		Props: []string{"C05"},
-		Floor: 1,
-		Doc:   "a boolean verdict that an inner loop clears and the enclosing loop reads afterwards is declared or re-initialised inside the enclosing loop, before the inner loop: each outer iteration (each ring of a polygon) is judged on its own",
-		Run:   runFlagReset,
+		Name:    "FLAG-RESET",
+		IR:      "ast",
+		Props:   []string{"C05", "C39"},
+		Floor:   1,
+		FloorBy: map[string]int{"C05": 0, "C39": 1},
+		// The geometric predicates of spatial.go carry C05 (none keeps such a flag since fix 0ae73b2
+		// replaced the per-ring verdict of CapIntersectsPolygon by Polygon.ContainsPoint); the tag list's
+		// RemoveTags carries C39; package geometry is informational.
+		Narrow: func(o *Obligation) {
+			switch {
+			case strings.HasPrefix(o.Pos, "spatial.go:"):
+				o.Props = []string{"C05"}
+			case strings.HasPrefix(o.Pos, "world.go:"):
+				o.Props = []string{"C39"}
+			default:
+				o.Props = []string{"C05"}
+				if o.Status == Violation {
+					o.Detail = "verdict violation (outside the anchored files): " + o.Detail
+				}
+				o.Status = Info
+			}
+		},
+		Doc: "a boolean verdict that an inner loop clears and the enclosing loop reads afterwards is declared or re-initialised inside the enclosing loop, before the inner loop: each outer iteration (each ring of a polygon) is judged on its own",
+		Run: runFlagReset,
 	})
 	register(&Rule{
 		Name:  "CATCH-UP",
